@@ -47,8 +47,10 @@ where
             for (medoid, cluster_data) in std::mem::take(current_clusters).into_iter() {
                 // not enough data for clustering, simply propagate it to the next tier
                 if cluster_data.len() < K_PER_TIER {
-                    current_tier_clusters.insert(medoid.clone().expect("should be set"), cluster_data.clone());
-                    next_tier_clusters.push((medoid, cluster_data));
+                    // NOTE: top level data has no medoid yet: a single point is its own medoid
+                    let Some(medoid) = medoid.or_else(|| cluster_data.first().cloned()) else { continue };
+                    current_tier_clusters.insert(medoid.clone(), cluster_data.clone());
+                    next_tier_clusters.push((Some(medoid), cluster_data));
                     continue;
                 } else {
                     let new_clusters = create_kmedoids(&cluster_data, K_PER_TIER, distance_fn.clone());
